@@ -1,97 +1,105 @@
 import SaModel.Lemmas.C04Cast
 import SaModel.Lemmas.C04CastEnum
+import SaModel.Lemmas.C04LvO
+import SaModel.Lemmas.C04ScopeLv
+import SaModel.Lemmas.C04Scope
 /-
-C04: `cast_lvE` — the typed read specification `Read.cast`, at the target of a type, on the logical value of a value of
-that type, in a well-formed array of the traced field, demands exactly the normalised value (fragment `fragE`).
-Mutual structural recursion over the value.
+C04: `cast_lvO` — the typed read specification `Read.cast`, at the target of a type, on the OPTION-DEPENDENT logical value
+`lvO o` of a value of that type, in a well-formed array of the field the type is traced to under the options `o`, demands
+exactly the normalised value (fragment `fragE`, enums in both storage forms: dense Union, and Dictionary(UInt32, string)
+for enums without data under `enums_without_data_as_strings`, where the logical value is the variant NAME).
+Exclusions: `inScopeU` (no `None` at a Union position) and `strOK` (a value of a string-stored enum is a unit variant).
+The right-hand side does not depend on the storage form: `norm` (defined through `lv`) is the normalisation of both forms
+(`lvO_null_iff`).  Mutual structural recursion over the value.
 -/
 namespace SaModel.Roundtrip
 open SaModel SaModel.Spec SaModel.Build
 
 mutual
-theorem cast_lvE (o : TraceOpts) : ∀ (t : Ty) (v : Val) (a : Arr) (dt : DataType) (nb : Bool) (md : Metadata) (nl : Bool),
-    fragE t = true → wt t v = true → inScope o t v = true → mappingDT o t = (dt, nb, md) → Spec.wf dt nl a = true →
-    Read.cast (toTarget t) a (lv t v) = Read.must (dvalOf t (norm t v))
-  | t, .bool b, a, dt, nb, md, nl, hf, hw, hs, hm, hwf => by
+theorem cast_lvO (o : TraceOpts) : ∀ (t : Ty) (v : Val) (a : Arr) (dt : DataType) (nb : Bool) (md : Metadata) (nl : Bool),
+    fragE t = true → wt t v = true → inScopeU o t v = true → strOK o t v = true → mappingDT o t = (dt, nb, md) → Spec.wf dt nl a = true →
+    Read.cast (toTarget t) a (lvO o t v) = Read.must (dvalOf t (norm t v))
+  | t, .bool b, a, dt, nb, md, nl, hf, hw, hs, hso, hm, hwf => by
     cases t with
     | prim p =>
       simp only [mappingDT, Prod.mk.injEq] at hm; obtain ⟨rfl, rfl, rfl⟩ := hm
-      rw [norm_prim]; exact cast_prim o p _ a nl (by simpa [wt] using hw) hwf
+      rw [norm_prim, lvO_prim]; exact cast_prim o p _ a nl (by simpa [wt] using hw) hwf
     | _ => simp [wt] at hw
-  | t, .int x, a, dt, nb, md, nl, hf, hw, hs, hm, hwf => by
+  | t, .int x, a, dt, nb, md, nl, hf, hw, hs, hso, hm, hwf => by
     cases t with
     | prim p =>
       simp only [mappingDT, Prod.mk.injEq] at hm; obtain ⟨rfl, rfl, rfl⟩ := hm
-      rw [norm_prim]; exact cast_prim o p _ a nl (by simpa [wt] using hw) hwf
+      rw [norm_prim, lvO_prim]; exact cast_prim o p _ a nl (by simpa [wt] using hw) hwf
     | _ => simp [wt] at hw
-  | t, .f32 x, a, dt, nb, md, nl, hf, hw, hs, hm, hwf => by
+  | t, .f32 x, a, dt, nb, md, nl, hf, hw, hs, hso, hm, hwf => by
     cases t with
     | prim p =>
       simp only [mappingDT, Prod.mk.injEq] at hm; obtain ⟨rfl, rfl, rfl⟩ := hm
-      rw [norm_prim]; exact cast_prim o p _ a nl (by simpa [wt] using hw) hwf
+      rw [norm_prim, lvO_prim]; exact cast_prim o p _ a nl (by simpa [wt] using hw) hwf
     | _ => simp [wt] at hw
-  | t, .f64 x, a, dt, nb, md, nl, hf, hw, hs, hm, hwf => by
+  | t, .f64 x, a, dt, nb, md, nl, hf, hw, hs, hso, hm, hwf => by
     cases t with
     | prim p =>
       simp only [mappingDT, Prod.mk.injEq] at hm; obtain ⟨rfl, rfl, rfl⟩ := hm
-      rw [norm_prim]; exact cast_prim o p _ a nl (by simpa [wt] using hw) hwf
+      rw [norm_prim, lvO_prim]; exact cast_prim o p _ a nl (by simpa [wt] using hw) hwf
     | _ => simp [wt] at hw
-  | t, .char x, a, dt, nb, md, nl, hf, hw, hs, hm, hwf => by
+  | t, .char x, a, dt, nb, md, nl, hf, hw, hs, hso, hm, hwf => by
     cases t with
     | prim p =>
       simp only [mappingDT, Prod.mk.injEq] at hm; obtain ⟨rfl, rfl, rfl⟩ := hm
-      rw [norm_prim]; exact cast_prim o p _ a nl (by simpa [wt] using hw) hwf
+      rw [norm_prim, lvO_prim]; exact cast_prim o p _ a nl (by simpa [wt] using hw) hwf
     | _ => simp [wt] at hw
-  | t, .str x, a, dt, nb, md, nl, hf, hw, hs, hm, hwf => by
+  | t, .str x, a, dt, nb, md, nl, hf, hw, hs, hso, hm, hwf => by
     cases t with
     | prim p =>
       simp only [mappingDT, Prod.mk.injEq] at hm; obtain ⟨rfl, rfl, rfl⟩ := hm
-      rw [norm_prim]; exact cast_prim o p _ a nl (by simpa [wt] using hw) hwf
+      rw [norm_prim, lvO_prim]; exact cast_prim o p _ a nl (by simpa [wt] using hw) hwf
     | _ => simp [wt] at hw
-  | t, .bytes x, a, dt, nb, md, nl, hf, hw, hs, hm, hwf => by
+  | t, .bytes x, a, dt, nb, md, nl, hf, hw, hs, hso, hm, hwf => by
     cases t with
     | prim p =>
       simp only [mappingDT, Prod.mk.injEq] at hm; obtain ⟨rfl, rfl, rfl⟩ := hm
-      rw [norm_prim]; exact cast_prim o p _ a nl (by simpa [wt] using hw) hwf
+      rw [norm_prim, lvO_prim]; exact cast_prim o p _ a nl (by simpa [wt] using hw) hwf
     | _ => simp [wt] at hw
-  | t, .unit, a, dt, nb, md, nl, hf, hw, hs, hm, hwf => by
+  | t, .unit, a, dt, nb, md, nl, hf, hw, hs, hso, hm, hwf => by
     cases t with
     | prim p => cases p <;> simp [wt, Prim.wt] at hw
     | unit =>
       simp only [mappingDT, Prod.mk.injEq] at hm; obtain ⟨rfl, rfl, rfl⟩ := hm
       obtain ⟨len, rfl⟩ := wf_null hwf
-      simp [toTarget, lv, norm, dvalOf, Read.cast, Read.castScalar, Read.isNullArr]
+      simp [toTarget, lvO, norm, dvalOf, Read.cast, Read.castScalar, Read.isNullArr]
     | unitStruct n =>
       simp only [mappingDT, Prod.mk.injEq] at hm; obtain ⟨rfl, rfl, rfl⟩ := hm
       obtain ⟨len, rfl⟩ := wf_null hwf
-      simp [toTarget, lv, norm, dvalOf, Read.cast, Read.castScalar, Read.isNullArr]
+      simp [toTarget, lvO, norm, dvalOf, Read.cast, Read.castScalar, Read.isNullArr]
     | _ => simp [wt] at hw
-  | t, .none, a, dt, nb, md, nl, hf, hw, hs, hm, hwf => by
+  | t, .none, a, dt, nb, md, nl, hf, hw, hs, hso, hm, hwf => by
     cases t with
     | prim p => cases p <;> simp [wt, Prim.wt] at hw
-    | option t' => simp [toTarget, lv, norm, dvalOf, Read.cast]
+    | option t' => simp [toTarget, lvO, norm, dvalOf, Read.cast]
     | _ => simp [wt] at hw
-  | t, .some v, a, dt, nb, md, nl, hf, hw, hs, hm, hwf => by
+  | t, .some v, a, dt, nb, md, nl, hf, hw, hs, hso, hm, hwf => by
     cases t with
     | prim p => cases p <;> simp [wt, Prim.wt] at hw
     | option t' =>
       rcases hm' : mappingDT o t' with ⟨dt', nb', md'⟩
       simp only [mappingDT, hm', Prod.mk.injEq] at hm; obtain ⟨rfl, rfl, rfl⟩ := hm
-      have ih := cast_lvE o t' v a _ _ _ nl (by simpa [fragE] using hf) (by simpa [wt] using hw) (by simpa [inScope] using hs) hm' hwf
+      have ih := cast_lvO o t' v a _ _ _ nl (by simpa [fragE] using hf) (by simpa [wt] using hw) (by simpa [inScopeU] using hs) (by simpa [strOK] using hso) hm' hwf
+      have hiff := lvO_null_iff o t' v (by simpa [wt] using hw)
       by_cases hn : lv t' v = .null
-      · simp [toTarget, lv, norm, dvalOf, hn, Read.cast]
-      · simp only [toTarget, lv, norm, hn, if_false, dvalOf]
-        exact cast_option_nonnull _ a _ _ hn ih
+      · simp [toTarget, lvO, norm, dvalOf, hn, hiff.mpr hn, Read.cast]
+      · simp only [toTarget, lvO, norm, hn, if_false, dvalOf]
+        exact cast_option_nonnull _ a _ _ (fun h => hn (hiff.mp h)) ih
     | _ => simp [wt] at hw
-  | t, .newtype v, a, dt, nb, md, nl, hf, hw, hs, hm, hwf => by
+  | t, .newtype v, a, dt, nb, md, nl, hf, hw, hs, hso, hm, hwf => by
     cases t with
     | prim p => cases p <;> simp [wt, Prim.wt] at hw
     | newtype n t' =>
       simp only [mappingDT] at hm
-      have ih := cast_lvE o t' v a _ _ _ nl (by simpa [fragE] using hf) (by simpa [wt] using hw) (by simpa [inScope] using hs) hm hwf
-      simpa [toTarget, lv, norm, dvalOf, Read.cast] using ih
+      have ih := cast_lvO o t' v a _ _ _ nl (by simpa [fragE] using hf) (by simpa [wt] using hw) (by simpa [inScopeU] using hs) (by simpa [strOK] using hso) hm hwf
+      simpa [toTarget, lvO, norm, dvalOf, Read.cast] using ih
     | _ => simp [wt] at hw
-  | t, .vec vs, a, dt, nb, md, nl, hf, hw, hs, hm, hwf => by
+  | t, .vec vs, a, dt, nb, md, nl, hf, hw, hs, hso, hm, hwf => by
     cases t with
     | prim p => cases p <;> simp [wt, Prim.wt] at hw
     | vec t' =>
@@ -106,10 +114,10 @@ theorem cast_lvE (o : TraceOpts) : ∀ (t : Ty) (v : Val) (a : Arr) (dt : DataTy
           obtain ⟨v, offs, fm, el, rfl, _, h⟩ := wf_list hwf
           exact ⟨_, v, offs, fm, el, rfl, h⟩
       obtain ⟨lg, vv, offs, fm, el, rfl, hel⟩ := hel
-      have ih := cast_lvAllE o t' vs el dt' nb' md' nb' (by simpa [fragE] using hf) (by simpa [wt] using hw) (by simpa [inScope] using hs) hm' hel
-      simp [toTarget, lv, norm, dvalOf, Read.cast, ih, Read.andThenL, DVals.ofList_toList]
+      have ih := cast_lvAllO o t' vs el dt' nb' md' nb' (by simpa [fragE] using hf) (by simpa [wt] using hw) (by simpa [inScopeU] using hs) (by simpa [strOK] using hso) hm' hel
+      simp [toTarget, lvO, norm, dvalOf, Read.cast, ih, Read.andThenL, DVals.ofList_toList]
     | _ => simp [wt] at hw
-  | t, .map es, a, dt, nb, md, nl, hf, hw, hs, hm, hwf => by
+  | t, .map es, a, dt, nb, md, nl, hf, hw, hs, hso, hm, hwf => by
     cases t with
     | prim p => cases p <;> simp [wt, Prim.wt] at hw
     | map k v =>
@@ -118,24 +126,24 @@ theorem cast_lvE (o : TraceOpts) : ∀ (t : Ty) (v : Val) (a : Arr) (dt : DataTy
       simp only [mappingDT, hk, hv, Prod.mk.injEq] at hm; obtain ⟨rfl, rfl, rfl⟩ := hm
       simp only [fragE, Bool.and_eq_true] at hf
       obtain ⟨vv, offs, mm, ks, vs, rfl, _, _, hwk, hwv⟩ := wf_map hwf
-      have ih := cast_lvEntriesE o k v es ks vs kdt knb kmd vdt vnb vmd hf.1 hf.2 (by simpa [wt] using hw) (by simpa [inScope] using hs) hk hv hwk hwv
-      simp [toTarget, lv, norm, dvalOf, Read.cast, ih, Read.andThenE, DEntries.ofList_toList]
+      have ih := cast_lvEntriesO o k v es ks vs kdt knb kmd vdt vnb vmd hf.1 hf.2 (by simpa [wt] using hw) (by simpa [inScopeU] using hs) (by simpa [strOK] using hso) hk hv hwk hwv
+      simp [toTarget, lvO, norm, dvalOf, Read.cast, ih, Read.andThenE, DEntries.ofList_toList]
     | _ => simp [wt] at hw
-  | t, .tuple vs, a, dt, nb, md, nl, hf, hw, hs, hm, hwf => by
+  | t, .tuple vs, a, dt, nb, md, nl, hf, hw, hs, hso, hm, hwf => by
     cases t with
     | prim p => cases p <;> simp [wt, Prim.wt] at hw
     | tuple ts =>
       simp only [mappingDT, Prod.mk.injEq] at hm; obtain ⟨rfl, rfl, rfl⟩ := hm
       obtain ⟨len, vv, cols, rfl, _, hcols⟩ := wf_struct hwf
-      have ih := cast_lvPosE o ts vs 0 cols len (by simpa [fragE] using hf) (by simpa [wt] using hw) (by simpa [inScope] using hs) hcols
-      simp [toTarget, lv, norm, dvalOf, Read.cast, Read.tupleClaim, ih, Read.andThenL, DVals.ofList_toList]
+      have ih := cast_lvPosO o ts vs 0 cols len (by simpa [fragE] using hf) (by simpa [wt] using hw) (by simpa [inScopeU] using hs) (by simpa [strOK] using hso) hcols
+      simp [toTarget, lvO, norm, dvalOf, Read.cast, Read.tupleClaim, ih, Read.andThenL, DVals.ofList_toList]
     | tupleStruct n ts =>
       simp only [mappingDT, Prod.mk.injEq] at hm; obtain ⟨rfl, rfl, rfl⟩ := hm
       obtain ⟨len, vv, cols, rfl, _, hcols⟩ := wf_struct hwf
-      have ih := cast_lvPosE o ts vs 0 cols len (by simpa [fragE] using hf) (by simpa [wt] using hw) (by simpa [inScope] using hs) hcols
-      simp [toTarget, lv, norm, dvalOf, Read.cast, Read.tupleClaim, ih, Read.andThenL, DVals.ofList_toList]
+      have ih := cast_lvPosO o ts vs 0 cols len (by simpa [fragE] using hf) (by simpa [wt] using hw) (by simpa [inScopeU] using hs) (by simpa [strOK] using hso) hcols
+      simp [toTarget, lvO, norm, dvalOf, Read.cast, Read.tupleClaim, ih, Read.andThenL, DVals.ofList_toList]
     | _ => simp [wt] at hw
-  | t, .struct vs, a, dt, nb, md, nl, hf, hw, hs, hm, hwf => by
+  | t, .struct vs, a, dt, nb, md, nl, hf, hw, hs, hso, hm, hwf => by
     cases t with
     | prim p => cases p <;> simp [wt, Prim.wt] at hw
     | struct n fs =>
@@ -144,24 +152,43 @@ theorem cast_lvE (o : TraceOpts) : ∀ (t : Ty) (v : Val) (a : Arr) (dt : DataTy
       have hw' : wtFields fs vs = true := by simpa [wt] using hw
       obtain ⟨len, vv, cols, rfl, _, hcols⟩ := wf_struct hwf
       have hfound := foundA_of o len fs vs cols hcols hw' hf.1
-      have ih := cast_lvFieldsE o cols (lvFields fs vs) fs vs hf.2 hw' (by simpa [inScope] using hs) hfound
+      have ih := cast_lvFieldsO o cols (lvOFields o fs vs) fs vs hf.2 hw' (by simpa [inScopeU] using hs) (by simpa [strOK] using hso) hfound
       have hn1 := wfFields_names o fs cols len hcols
-      simp [toTarget, lv, norm, dvalOf, Read.cast, Read.structClaim, hn1, toTargetFields_names, nodupNames_eq, hf.1, ih,
+      simp [toTarget, lvO, norm, dvalOf, Read.cast, Read.structClaim, hn1, toTargetFields_names, nodupNames_eq, hf.1, ih,
         Read.andThenE, DEntries.ofList_toList]
     | _ => simp [wt] at hw
-  | t, .variant i p, a, dt, nb, md, nl, hf, hw, hs, hm, hwf => by
+  | t, .variant i p, a, dt, nb, md, nl, hf, hw, hs, hso, hm, hwf => by
     cases t with
     | prim p => cases p <;> simp [wt, Prim.wt] at hw
     | enum n vars =>
-      simp only [inScope, Bool.and_eq_true, Bool.not_eq_true'] at hs
-      obtain ⟨hform, hpay⟩ := hs
-      obtain ⟨rfl, rfl, rfl⟩ := enum_union o n vars dt nb md hform hm
       simp only [fragE, Bool.and_eq_true, Bool.not_eq_true'] at hf
-      obtain ⟨types, offs, cols, rfl, hcols⟩ := wf_union hwf
       cases hg : vars.get? i with
       | none => simp [wt, hg] at hw
       | some q =>
-        obtain ⟨vn, kind⟩ := q
+      obtain ⟨vn, kind⟩ := q
+      cases hform : (vars.withoutData && o.enumsWithoutDataAsStrings) with
+      | true =>
+        -- stored as a string: Dictionary(UInt32, string type), the logical value is the variant name
+        simp only [mappingDT, hform, if_true, Prod.mk.injEq] at hm
+        obtain ⟨rfl, rfl, rfl⟩ := hm
+        obtain ⟨ks, vs, rfl⟩ := wf_dictionary_shape hwf
+        have hcs := castVariantStr_get vars i vn kind hf.1 hg
+        simp only [Read.strBytes] at hcs
+        cases kind with
+        | unit =>
+          simp only [toTarget, lvO, hform, norm, dvalOf, hg, Read.cast, Read.isStringLike, if_true, Bool.not_false,
+            Bool.and_self]
+          exact hcs
+        | newtype _ => simp [strOK, hform, hg] at hso
+        | tuple _ => simp [strOK, hform, hg] at hso
+        | struct _ => simp [strOK, hform, hg] at hso
+      | false =>
+        obtain ⟨rfl, rfl, rfl⟩ := enum_union o n vars dt nb md hform hm
+        obtain ⟨types, offs, cols, rfl, hcols⟩ := wf_union hwf
+        have hpay := hs
+        simp only [inScopeU, hg] at hpay
+        have hspay := hso
+        simp only [strOK, hform, hg, Bool.false_eq_true, if_false] at hspay
         have hfk := fragEVariants_get vars i vn kind hf.2 hg
         obtain ⟨fm, child, hfind, hname, hchild⟩ := findId_variant o vars cols 0 i vn kind (by simpa using hcols) hg
         simp only [Nat.zero_add] at hfind
@@ -169,7 +196,7 @@ theorem cast_lvE (o : TraceOpts) : ∀ (t : Ty) (v : Val) (a : Arr) (dt : DataTy
         cases kind with
         | unit =>
           obtain ⟨len, rfl⟩ := wf_null (by simpa [variantField, Field.dataType, Field.nullable] using hchild)
-          simp [toTarget, lv, norm, dvalOf, hg, Read.cast, hfind, hname, hcv _ vars i vn .unit hf.1 hg, toTargetKind,
+          simp [toTarget, lvO, hform, norm, dvalOf, hg, Read.cast, hfind, hname, hcv _ vars i vn .unit hf.1 hg, toTargetKind,
             Read.castKind, Read.isNullArr, Read.LVal.isNull, Read.Claim.andThen, Read.must]
         | newtype t' =>
           have hw' : wtSingle t' p = true := by simpa [wt, hg] using hw
@@ -180,17 +207,17 @@ theorem cast_lvE (o : TraceOpts) : ∀ (t : Ty) (v : Val) (a : Arr) (dt : DataTy
             cases rest with
             | cons _ _ => simp [wtSingle] at hw'
             | nil =>
-              have ih := cast_lvE o t' v child dt' nb' md' nb' (by simpa [fragEVariant] using hfk)
-                (by simpa [wtSingle] using hw') (by simpa [hg, inScopeSingle] using hpay) hm'
+              have ih := cast_lvO o t' v child dt' nb' md' nb' (by simpa [fragEVariant] using hfk)
+                (by simpa [wtSingle] using hw') (by simpa [inScopeUSingle] using hpay) (by simpa [strOKSingle] using hspay) hm'
                 (by simpa [variantField, Field.dataType, Field.nullable, hm'] using hchild)
-              simp [toTarget, lv, norm, dvalOf, hg, lvSingle, normSingle, dvalSingle, Read.cast, hfind, hname,
+              simp [toTarget, lvO, hform, norm, dvalOf, hg, lvOSingle, normSingle, dvalSingle, Read.cast, hfind, hname,
                 hcv _ vars i vn _ hf.1 hg, toTargetKind, Read.castKind, ih, Read.Claim.andThen, Read.must]
         | tuple ts =>
           have hw' : wtPos ts p = true := by simpa [wt, hg] using hw
           obtain ⟨len, vv, ccols, rfl, _, hccols⟩ := wf_struct
             (by simpa [variantField, Field.dataType, Field.nullable] using hchild : Spec.wf (.struct (mappingPos o 0 ts)) false child = true)
-          have ih := cast_lvPosE o ts p 0 ccols len (by simpa [fragEVariant] using hfk) hw' (by simpa [hg] using hpay) hccols
-          simp [toTarget, lv, norm, dvalOf, hg, Read.cast, hfind, hname, hcv _ vars i vn _ hf.1 hg, toTargetKind,
+          have ih := cast_lvPosO o ts p 0 ccols len (by simpa [fragEVariant] using hfk) hw' hpay hspay hccols
+          simp [toTarget, lvO, hform, norm, dvalOf, hg, Read.cast, hfind, hname, hcv _ vars i vn _ hf.1 hg, toTargetKind,
             Read.castKind, Read.tupleClaim, ih, Read.andThenL, DVals.ofList_toList, Read.Claim.andThen, Read.must]
         | struct fs =>
           have hw' : wtFields fs p = true := by simpa [wt, hg] using hw
@@ -198,77 +225,115 @@ theorem cast_lvE (o : TraceOpts) : ∀ (t : Ty) (v : Val) (a : Arr) (dt : DataTy
           obtain ⟨len, vv, ccols, rfl, _, hccols⟩ := wf_struct
             (by simpa [variantField, Field.dataType, Field.nullable] using hchild : Spec.wf (.struct (mappingFields o fs)) false child = true)
           have hfound := foundA_of o len fs p ccols hccols hw' hfk.1
-          have ih := cast_lvFieldsE o ccols (lvFields fs p) fs p hfk.2 hw' (by simpa [hg] using hpay) hfound
+          have ih := cast_lvFieldsO o ccols (lvOFields o fs p) fs p hfk.2 hw' hpay hspay hfound
           have hn1 := wfFields_names o fs ccols len hccols
-          simp [toTarget, lv, norm, dvalOf, hg, Read.cast, hfind, hname, hcv _ vars i vn _ hf.1 hg, toTargetKind,
+          simp [toTarget, lvO, hform, norm, dvalOf, hg, Read.cast, hfind, hname, hcv _ vars i vn _ hf.1 hg, toTargetKind,
             Read.castKind, Read.structClaim, hn1, toTargetFields_names, nodupNames_eq, hfk.1, ih, Read.andThenE,
             DEntries.ofList_toList, Read.Claim.andThen, Read.must]
     | _ => simp [wt] at hw
 
-theorem cast_lvAllE (o : TraceOpts) : ∀ (t : Ty) (vs : Vals) (el : Arr) (dt : DataType) (nb : Bool) (md : Metadata) (nl : Bool),
-    fragE t = true → wtAll t vs = true → inScopeAll o t vs = true → mappingDT o t = (dt, nb, md) → Spec.wf dt nl el = true →
-    Read.claimVals (fun x => Read.cast (toTarget t) el x) (lvAll t vs) = .ok (some (dvalAll t (normAll t vs)).toList)
-  | t, .nil, el, dt, nb, md, nl, _, _, _, _, _ => by simp [lvAll, normAll, dvalAll, Read.claimVals, Read.DVals.toList]
-  | t, .cons v rest, el, dt, nb, md, nl, hf, hw, hs, hm, hwf => by
+theorem cast_lvAllO (o : TraceOpts) : ∀ (t : Ty) (vs : Vals) (el : Arr) (dt : DataType) (nb : Bool) (md : Metadata) (nl : Bool),
+    fragE t = true → wtAll t vs = true → inScopeUAll o t vs = true → strOKAll o t vs = true → mappingDT o t = (dt, nb, md) → Spec.wf dt nl el = true →
+    Read.claimVals (fun x => Read.cast (toTarget t) el x) (lvOAll o t vs) = .ok (some (dvalAll t (normAll t vs)).toList)
+  | t, .nil, el, dt, nb, md, nl, _, _, _, _, _, _ => by simp [lvOAll, normAll, dvalAll, Read.claimVals, Read.DVals.toList]
+  | t, .cons v rest, el, dt, nb, md, nl, hf, hw, hs, hso, hm, hwf => by
     simp only [wtAll, Bool.and_eq_true] at hw
-    simp only [inScopeAll, Bool.and_eq_true] at hs
-    have h1 := cast_lvE o t v el dt nb md nl hf hw.1 hs.1 hm hwf
-    have h2 := cast_lvAllE o t rest el dt nb md nl hf hw.2 hs.2 hm hwf
-    simp [lvAll, normAll, dvalAll, Read.claimVals, Read.DVals.toList, h1, h2, Read.consClaim, Read.must]
+    simp only [inScopeUAll, Bool.and_eq_true] at hs
+    simp only [strOKAll, Bool.and_eq_true] at hso
+    have h1 := cast_lvO o t v el dt nb md nl hf hw.1 hs.1 hso.1 hm hwf
+    have h2 := cast_lvAllO o t rest el dt nb md nl hf hw.2 hs.2 hso.2 hm hwf
+    simp [lvOAll, normAll, dvalAll, Read.claimVals, Read.DVals.toList, h1, h2, Read.consClaim, Read.must]
 
-theorem cast_lvEntriesE (o : TraceOpts) : ∀ (k v : Ty) (es : VEntries) (ks vs : Arr)
+theorem cast_lvEntriesO (o : TraceOpts) : ∀ (k v : Ty) (es : VEntries) (ks vs : Arr)
     (kdt : DataType) (knb : Bool) (kmd : Metadata) (vdt : DataType) (vnb : Bool) (vmd : Metadata),
-    fragE k = true → fragE v = true → wtEntries k v es = true → inScopeEntries o k v es = true →
+    fragE k = true → fragE v = true → wtEntries k v es = true → inScopeUEntries o k v es = true → strOKEntries o k v es = true →
     mappingDT o k = (kdt, knb, kmd) → mappingDT o v = (vdt, vnb, vmd) →
     Spec.wf kdt knb ks = true → Spec.wf vdt vnb vs = true →
-    Read.claimEntries (fun w => Read.cast (toTarget k) ks w) (fun w => Read.cast (toTarget v) vs w) (lvEntries k v es) =
+    Read.claimEntries (fun w => Read.cast (toTarget k) ks w) (fun w => Read.cast (toTarget v) vs w) (lvOEntries o k v es) =
       .ok (some (dvalEntries k v (normEntries k v es)).toList)
-  | k, v, .nil, _, _, _, _, _, _, _, _, _, _, _, _, _, _, _, _ => by
-    simp [lvEntries, normEntries, dvalEntries, Read.claimEntries, Read.DEntries.toList]
-  | k, v, .cons a b rest, ks, vs, kdt, knb, kmd, vdt, vnb, vmd, hfk, hfv, hw, hs, hk, hv, hwk, hwv => by
+  | k, v, .nil, _, _, _, _, _, _, _, _, _, _, _, _, _, _, _, _, _ => by
+    simp [lvOEntries, normEntries, dvalEntries, Read.claimEntries, Read.DEntries.toList]
+  | k, v, .cons a b rest, ks, vs, kdt, knb, kmd, vdt, vnb, vmd, hfk, hfv, hw, hs, hso, hk, hv, hwk, hwv => by
     simp only [wtEntries, Bool.and_eq_true] at hw
-    simp only [inScopeEntries, Bool.and_eq_true] at hs
-    have h1 := cast_lvE o k a ks kdt knb kmd knb hfk hw.1.1 hs.1.1 hk hwk
-    have h2 := cast_lvE o v b vs vdt vnb vmd vnb hfv hw.1.2 hs.1.2 hv hwv
-    have h3 := cast_lvEntriesE o k v rest ks vs kdt knb kmd vdt vnb vmd hfk hfv hw.2 hs.2 hk hv hwk hwv
-    simp [lvEntries, normEntries, dvalEntries, Read.claimEntries, Read.DEntries.toList, h1, h2, h3, Read.consClaim,
+    simp only [inScopeUEntries, Bool.and_eq_true] at hs
+    simp only [strOKEntries, Bool.and_eq_true] at hso
+    have h1 := cast_lvO o k a ks kdt knb kmd knb hfk hw.1.1 hs.1.1 hso.1.1 hk hwk
+    have h2 := cast_lvO o v b vs vdt vnb vmd vnb hfv hw.1.2 hs.1.2 hso.1.2 hv hwv
+    have h3 := cast_lvEntriesO o k v rest ks vs kdt knb kmd vdt vnb vmd hfk hfv hw.2 hs.2 hso.2 hk hv hwk hwv
+    simp [lvOEntries, normEntries, dvalEntries, Read.claimEntries, Read.DEntries.toList, h1, h2, h3, Read.consClaim,
       Read.pairClaim, Read.must]
 
-theorem cast_lvFieldsE (o : TraceOpts) (cols : ArrFields) (lfs : LFields) : ∀ (fs2 : TFields) (vs2 : Vals),
-    fragEFields fs2 = true → wtFields fs2 vs2 = true → inScopeFields o fs2 vs2 = true → FoundA o cols lfs fs2 vs2 →
+theorem cast_lvFieldsO (o : TraceOpts) (cols : ArrFields) (lfs : LFields) : ∀ (fs2 : TFields) (vs2 : Vals),
+    fragEFields fs2 = true → wtFields fs2 vs2 = true → inScopeUFields o fs2 vs2 = true → strOKFields o fs2 vs2 = true → FoundA o cols lfs fs2 vs2 →
     Read.castFields (toTargetFields fs2) cols lfs = .ok (some (dvalFields fs2 (normFields fs2 vs2)).toList)
-  | .nil, .nil, _, _, _, _ => by simp [toTargetFields, Read.castFields, normFields, dvalFields, Read.DEntries.toList]
-  | .nil, .cons _ _, _, hw, _, _ => by simp [wtFields] at hw
-  | .cons _ _ _ _, .nil, _, hw, _, _ => by simp [wtFields] at hw
-  | .cons n s t rest, .cons v vrest, hf, hw, hs, hfound => by
+  | .nil, .nil, _, _, _, _, _ => by simp [toTargetFields, Read.castFields, normFields, dvalFields, Read.DEntries.toList]
+  | .nil, .cons _ _, _, hw, _, _, _ => by simp [wtFields] at hw
+  | .cons _ _ _ _, .nil, _, hw, _, _, _ => by simp [wtFields] at hw
+  | .cons n s t rest, .cons v vrest, hf, hw, hs, hso, hfound => by
     simp only [fragEFields, Bool.and_eq_true] at hf
     simp only [wtFields, Bool.and_eq_true] at hw
-    simp only [inScopeFields, Bool.and_eq_true] at hs
+    simp only [inScopeUFields, Bool.and_eq_true] at hs
+    simp only [strOKFields, Bool.and_eq_true] at hso
     obtain ⟨⟨a, dt, nb, md, nl, h1, h2, h3⟩, hr⟩ := hfound
-    have hc := cast_lvE o t v a dt nb md nl hf.1.1 hw.1 hs.1 h2 h3
-    have ih := cast_lvFieldsE o cols lfs rest vrest hf.2 hw.2 hs.2 hr
+    have hc := cast_lvO o t v a dt nb md nl hf.1.1 hw.1 hs.1 hso.1 h2 h3
+    have ih := cast_lvFieldsO o cols lfs rest vrest hf.2 hw.2 hs.2 hso.2 hr
     simp [toTargetFields, Read.castFields, h1, hc, ih, normFields, dvalFields, Read.DEntries.toList, Read.consClaim,
       Read.must, nameKey]
 
-theorem cast_lvPosE (o : TraceOpts) : ∀ (ts : Tys) (vs : Vals) (i : Nat) (cols : ArrFields) (len : Nat),
-    fragETys ts = true → wtPos ts vs = true → inScopePos o ts vs = true → Spec.wfFields (mappingPos o i ts) cols len = true →
-    Read.castTuple (toTargets ts) cols (lvPos i ts vs) = .ok (some (dvalPos ts (normPos ts vs)).toList)
-  | .nil, .nil, _, _, _, _, _, _, _ => by simp [toTargets, Read.castTuple, normPos, dvalPos, Read.DVals.toList]
-  | .nil, .cons _ _, _, _, _, _, hw, _, _ => by simp [wtPos] at hw
-  | .cons _ _, .nil, _, _, _, _, hw, _, _ => by simp [wtPos] at hw
-  | .cons t rest, .cons v vrest, i, .nil, len, _, _, _, h => by
+theorem cast_lvPosO (o : TraceOpts) : ∀ (ts : Tys) (vs : Vals) (i : Nat) (cols : ArrFields) (len : Nat),
+    fragETys ts = true → wtPos ts vs = true → inScopeUPos o ts vs = true → strOKPos o ts vs = true → Spec.wfFields (mappingPos o i ts) cols len = true →
+    Read.castTuple (toTargets ts) cols (lvOPos o i ts vs) = .ok (some (dvalPos ts (normPos ts vs)).toList)
+  | .nil, .nil, _, _, _, _, _, _, _, _ => by simp [toTargets, Read.castTuple, normPos, dvalPos, Read.DVals.toList]
+  | .nil, .cons _ _, _, _, _, _, hw, _, _, _ => by simp [wtPos] at hw
+  | .cons _ _, .nil, _, _, _, _, hw, _, _, _ => by simp [wtPos] at hw
+  | .cons t rest, .cons v vrest, i, .nil, len, _, _, _, _, h => by
     rcases hm : mappingDT o t with ⟨dt, nb, md⟩
     simp [mappingPos, hm, Spec.wfFields] at h
-  | .cons t rest, .cons v vrest, i, .cons fm a arest, len, hf, hw, hs, h => by
+  | .cons t rest, .cons v vrest, i, .cons fm a arest, len, hf, hw, hs, hso, h => by
     rcases hm : mappingDT o t with ⟨dt, nb, md⟩
     simp only [mappingPos, hm, Spec.wfFields, Bool.and_eq_true] at h
     simp only [fragETys, Bool.and_eq_true] at hf
     simp only [wtPos, Bool.and_eq_true] at hw
-    simp only [inScopePos, Bool.and_eq_true] at hs
-    have hc := cast_lvE o t v a dt nb md nb hf.1 hw.1 hs.1 hm (by simpa [Field.dataType, Field.nullable] using h.1.2)
-    have ih := cast_lvPosE o rest vrest (i + 1) arest len hf.2 hw.2 hs.2 h.2
-    simp [toTargets, lvPos, Read.castTuple, hc, ih, normPos, dvalPos, Read.DVals.toList, Read.consClaim, Read.must]
+    simp only [inScopeUPos, Bool.and_eq_true] at hs
+    simp only [strOKPos, Bool.and_eq_true] at hso
+    have hc := cast_lvO o t v a dt nb md nb hf.1 hw.1 hs.1 hso.1 hm (by simpa [Field.dataType, Field.nullable] using h.1.2)
+    have ih := cast_lvPosO o rest vrest (i + 1) arest len hf.2 hw.2 hs.2 hso.2 h.2
+    simp [toTargets, lvOPos, Read.castTuple, hc, ih, normPos, dvalPos, Read.DVals.toList, Read.consClaim, Read.must]
 end
+
+/-! ### the former statements about `lv` (old exclusion `inScope`: no value of a string-stored enum at all), re-derived
+
+Under `inScope` the two exclusions hold and `lvO o = lv` (`scope_of_inScope`, Lemmas/C04ScopeLv.lean). -/
+
+theorem cast_lvE (o : TraceOpts) (t : Ty) (v : Val) (a : Arr) (dt : DataType) (nb : Bool) (md : Metadata) (nl : Bool)
+    (hf : fragE t = true) (hw : wt t v = true) (hs : inScope o t v = true) (hm : mappingDT o t = (dt, nb, md))
+    (hwf : Spec.wf dt nl a = true) : Read.cast (toTarget t) a (lv t v) = Read.must (dvalOf t (norm t v)) := by
+  have h := scope_of_inScope o t v hs
+  rw [← h.2.2]; exact cast_lvO o t v a dt nb md nl hf hw h.1 h.2.1 hm hwf
+
+theorem cast_lvAllE (o : TraceOpts) (t : Ty) (vs : Vals) (el : Arr) (dt : DataType) (nb : Bool) (md : Metadata) (nl : Bool)
+    (hf : fragE t = true) (hw : wtAll t vs = true) (hs : inScopeAll o t vs = true) (hm : mappingDT o t = (dt, nb, md))
+    (hwf : Spec.wf dt nl el = true) :
+    Read.claimVals (fun x => Read.cast (toTarget t) el x) (lvAll t vs) = .ok (some (dvalAll t (normAll t vs)).toList) := by
+  have h := scope_of_inScopeAll o t vs hs
+  rw [← h.2.2]; exact cast_lvAllO o t vs el dt nb md nl hf hw h.1 h.2.1 hm hwf
+
+theorem cast_lvEntriesE (o : TraceOpts) (k v : Ty) (es : VEntries) (ks vs : Arr)
+    (kdt : DataType) (knb : Bool) (kmd : Metadata) (vdt : DataType) (vnb : Bool) (vmd : Metadata)
+    (hfk : fragE k = true) (hfv : fragE v = true) (hw : wtEntries k v es = true) (hs : inScopeEntries o k v es = true)
+    (hk : mappingDT o k = (kdt, knb, kmd)) (hv : mappingDT o v = (vdt, vnb, vmd))
+    (hwk : Spec.wf kdt knb ks = true) (hwv : Spec.wf vdt vnb vs = true) :
+    Read.claimEntries (fun w => Read.cast (toTarget k) ks w) (fun w => Read.cast (toTarget v) vs w) (lvEntries k v es) =
+      .ok (some (dvalEntries k v (normEntries k v es)).toList) := by
+  have h := scope_of_inScopeEntries o k v es hs
+  rw [← h.2.2]; exact cast_lvEntriesO o k v es ks vs kdt knb kmd vdt vnb vmd hfk hfv hw h.1 h.2.1 hk hv hwk hwv
+
+theorem cast_lvPosE (o : TraceOpts) (ts : Tys) (vs : Vals) (i : Nat) (cols : ArrFields) (len : Nat)
+    (hf : fragETys ts = true) (hw : wtPos ts vs = true) (hs : inScopePos o ts vs = true)
+    (h : Spec.wfFields (mappingPos o i ts) cols len = true) :
+    Read.castTuple (toTargets ts) cols (lvPos i ts vs) = .ok (some (dvalPos ts (normPos ts vs)).toList) := by
+  have hh := scope_of_inScopePos o i ts vs hs
+  rw [← hh.2.2]; exact cast_lvPosO o ts vs i cols len hf hw hh.1 hh.2.1 h
 
 /-- `cast_lvE` on the enum-free fragment (no exclusion applies) -/
 theorem cast_lv (o : TraceOpts) (t : Ty) (v : Val) (a : Arr) (dt : DataType) (nb : Bool) (md : Metadata) (nl : Bool)
